@@ -1,6 +1,8 @@
 (* C15 property theorems over the tables regenerated from the repository (Gen_Fields.v, Gen_MapRanges.v). *)
 From Coq Require Import ZArith List Bool String.
-From OG Require Import C15.Model C15.Proofs C15.Tables C15.Gen_Fields C15.Gen_MapRanges C15.Gen_Transient.
+From Coq Require Import Lia.
+From OG Require Import C15.Model C15.Proofs C15.Tables C15.Gen_Fields C15.Gen_MapRanges C15.Gen_Transient C15.Gen_Commands.
+From OG Require Import C16.Model C16.ProofsRun C16.Order C15.Cmds C15.CmdsProofs.
 Import ListNotations.
 Open Scope string_scope.
 
@@ -50,3 +52,118 @@ Example C15_persistent_nonempty :
   persistent (in_scope types) transient known_gaps "MeasurementInfo" "Schema" = true /\
   forallb (fun p => match lookup types (fst p) with Some t => mem (snd p) (ty_fields t) | None => false end) (transient ++ known_gaps ++ known_shallow) = true.
 Proof. vm_compute. repeat split. Qed.
+
+(* the transient list is justified by a GENERATED fact too: apart from the fields whose stale value is harmless by their
+   nature (Tables.exposable_fields), no root of the apply path reaches a read of a transient field that is not preceded by
+   an assignment to it - so what such a reader sees never depends on whether the replica restored a snapshot *)
+Theorem C15_transient_reads_dominated : forallb (fun e => mem (fst e) exposable_fields) exposed_reads = true.
+Proof. vm_compute. reflexivity. Qed.
+Print Assumptions C15_transient_reads_dominated.
+
+(* every command kind storeFSM.executeCmd dispatches is either inside the Coq model or named as covered by the tables and
+   the differential only; the lists name nothing that is not dispatched and do not overlap *)
+Theorem C15_command_kinds_classified :
+  forallb (fun k => mem (fst k) (modelled_kinds ++ unmodelled_kinds)) command_kinds = true /\
+  forallb (fun k => existsb (fun c => String.eqb (fst c) k) command_kinds) (modelled_kinds ++ unmodelled_kinds) = true /\
+  forallb (fun k => negb (mem k unmodelled_kinds)) modelled_kinds = true.
+Proof. vm_compute. repeat split. Qed.
+Print Assumptions C15_command_kinds_classified.
+
+Open Scope Z_scope.
+
+(* ---- the hand model of the command semantics (Cmds.v): 39 command kinds ----
+   In all statements below [cstep] is ANY step function of the catalogue core (C16.Model.apply in either variant, or the
+   order-oracle step C16.Order.applyO under any oracle) and [pick] any choice function of DropSubscription. *)
+
+(* (b1) the transient part of a replica's state (ExpandShardsEnable, AdminUserExists, UpdateNodeTmpIndexCommandStart) never
+   influences the persistent part or the result of a command: two replicas that agree on what a snapshot carries stay in
+   agreement, command by command, whatever their transient fields hold *)
+Theorem C15_transient_noninterference : forall cstep pick v cfg l s1 s2, v_rewrite v = true -> pp s1 = pp s2 ->
+  pp (fst (x_run cstep pick v cfg s1 l)) = pp (fst (x_run cstep pick v cfg s2 l)) /\
+  snd (x_run cstep pick v cfg s1 l) = snd (x_run cstep pick v cfg s2 l).
+Proof. exact run_pp. Qed.
+Print Assumptions C15_transient_noninterference.
+
+(* (b2) what comes back from unmarshal (marshal (clone p)) is p, for the repaired encodings, when every instant of the
+   catalogue is an int64 of nanoseconds (C16's representability) and last-run instants are well formed *)
+Theorem C15_persisted_roundtrip : forall v p, v_cqfix v = true -> v_idxfix v = true -> reps p -> persisted v p = p.
+Proof. exact persisted_id. Qed.
+Print Assumptions C15_persisted_roundtrip.
+
+(* (b) snapshot/restore transparency at ANY position of a log, results included: a replica that restores the snapshot
+   taken after l1 and then applies l2 holds the persistent state of the replica that applied l1 ++ l2, and returned the
+   same results. Hypotheses: repaired encodings; the node-join handlers rewrite ExpandShardsEnable (today's code);
+   reported instants are int64; the catalogue at the snapshot position is representable. *)
+Theorem C15_snapshot_transparent : forall cstep pick v cfg l1 l2 s0,
+  v_cqfix v = true -> v_idxfix v = true -> v_rewrite v = true ->
+  cq_wf (pp s0) -> Forall entry_ok l1 ->
+  representable (core (pp (fst (x_run cstep pick v cfg s0 l1)))) ->
+  let s1 := fst (x_run cstep pick v cfg s0 l1) in
+  pp (fst (x_run cstep pick v cfg (x_restore v s1) l2)) = pp (fst (x_run cstep pick v cfg s0 (l1 ++ l2))) /\
+  snd (x_run cstep pick v cfg s0 (l1 ++ l2)) = (snd (x_run cstep pick v cfg s0 l1) ++ snd (x_run cstep pick v cfg (x_restore v s1) l2))%list.
+Proof. exact snapshot_transparent. Qed.
+Print Assumptions C15_snapshot_transparent.
+
+(* the derived cache AdminUserExists agrees with the users on every replica, restored or not *)
+Theorem C15_admin_cache_consistent :
+  (forall cstep pick v cfg s e, admin_inv s -> admin_inv (fst (x_apply cstep pick v cfg s e))) /\
+  (forall v s, admin_inv (x_restore v s)) /\ (forall c, admin_inv (init_x c)).
+Proof. split; [exact admin_inv_apply | split; [exact admin_inv_restore | reflexivity]]. Qed.
+Print Assumptions C15_admin_cache_consistent.
+
+(* (a) independence from the map iteration order, one step: with the repaired DropSubscription (policies walked in name
+   order) and under uniform sharding of the core (C16.Order), any two valid oracles of the core and any two choice
+   functions give the same state and the same result, for every command of the model *)
+Theorem C15_step_order_independent : forall shard_type range_create clip cleardef v cfg o1 o2 pk1 pk2 s e,
+  v_dsubfix v = true -> valid o1 -> valid o2 -> uniform_sharding shard_type (core (pp s)) ->
+  x_apply (stepO shard_type range_create clip cleardef o1) pk1 v cfg s e =
+  x_apply (stepO shard_type range_create clip cleardef o2) pk2 v cfg s e.
+Proof. intros. apply apply_order; assumption. Qed.
+Print Assumptions C15_step_order_independent.
+
+(* (a) convergence: two replicas that apply the same log, each under its own oracles at every step, end in the same state
+   and return the same results, provided uniform sharding holds in the catalogues one of them goes through *)
+Theorem C15_replicas_converge : forall shard_type range_create clip cleardef v cfg l os1 os2 s, v_dsubfix v = true ->
+  List.length os1 = List.length l -> List.length os2 = List.length l ->
+  Forall (fun o => valid (fst o)) os1 -> Forall (fun o => valid (fst o)) os2 ->
+  uniform_alongX shard_type range_create clip cleardef v cfg os1 s l ->
+  x_runO shard_type range_create clip cleardef v cfg os1 s l = x_runO shard_type range_create clip cleardef v cfg os2 s l.
+Proof. intros. apply convergence; assumption. Qed.
+Print Assumptions C15_replicas_converge.
+
+(* today's DropSubscription (first policy REACHED in map order): the choice is immaterial unless two or more policies of
+   the database carry a subscription of that name - exactly the signature of finding C15-dropsubscription-map-order *)
+Theorem C15_dropsub_order_matters_only_with_duplicates : forall cs pk1 pk2 v cfg s x, pick_valid pk1 -> pick_valid pk2 ->
+  match x with DropSub db 0 n => (List.length (sub_candidates (pp s) db n) <= 1)%nat | _ => True end ->
+  exec cs pk1 v cfg s x = exec cs pk2 v cfg s x.
+Proof. exact exec_order_current. Qed.
+Print Assumptions C15_dropsub_order_matters_only_with_duplicates.
+
+(* non-vacuity: the hypotheses of C15_snapshot_transparent hold on a log that touches every part of the state, under a
+   configuration with expand-shards-enable on *)
+Definition ex_cfg : config := {| cfg_expand := true; cfg_expandf := fun c => set_max_mst c (C16.Model.max_mst c + 100) |}.
+Definition ex_pick : list Z -> option Z := fun l => nth_error l 0.
+Definition E (i : Z) (x : xcmd) : entry := (1, i, x).
+Definition ex_l1 : list entry := [
+  E 2 (Core (CreateNode 1 1)); E 3 (Core (CreateDb 1 1 0 HOUR)); E 4 (Core (CreateMst 1 1 1)); E 5 (Core (CreateSg 1 1 1700042400000000005 0));
+  E 6 (CreateUser 3 1 true false); E 7 (CreateUser 1 1 false false); E 8 (SetPrivilege 1 1 2); E 9 (CreateSub 1 1 1 1 1); E 10 (CreateCq 1 1 1);
+  E 11 (ReportCq 1 0); E 12 (CreateMeta 1 5 7); E 13 (CreateSql 101); E 14 (UpdateTmpIndex 1 30 1); E 15 (MarkTakeover true); E 16 (RegisterQid 1)].
+Definition ex_l2 : list entry := [
+  E 17 (Core (CreateNode 5 5)); E 18 (UpdateTmpIndex 1 20 1); E 19 (DropSub 1 0 1); E 20 (ReportCq 1 5); E 21 (Core (DropDb 1)); E 22 (DropUser 1)].
+Definition ex_s0 : xstate := init_x (init_cat 1 true).
+
+Example C15_example_hypotheses :
+  cq_wf (pp ex_s0) /\ Forall entry_ok ex_l1 /\
+  representable (core (pp (fst (x_run (apply false true) ex_pick v_repaired ex_cfg ex_s0 ex_l1)))).
+Proof.
+  split; [constructor|]. split; [repeat constructor; cbn; unfold MININT, MAXNANO1; lia|].
+  apply representable_b_sound. vm_compute. reflexivity.
+Qed.
+
+(* and on it the restored replica returns, for l2, what the others return (the second command fails everywhere: the
+   applied index 20 is not larger than 30, which the snapshot now carries) *)
+Example C15_example_results :
+  snd (x_run (apply false true) ex_pick v_repaired ex_cfg
+         (x_restore v_repaired (fst (x_run (apply false true) ex_pick v_repaired ex_cfg ex_s0 ex_l1))) ex_l2) =
+  [true; false; true; true; true; true].
+Proof. vm_compute. reflexivity. Qed.
